@@ -56,6 +56,7 @@ func ParseASN1PublicKey(data []byte) (*PublicKey, error) {
 		!input.Empty() ||
 		!inner.ReadASN1(&algorithm, asn1.SEQUENCE) ||
 		!inner.ReadASN1BitString(&subjectPublicKey) ||
+		subjectPublicKey.BitLength%8 != 0 || // The SEC 1 point is an octet string.
 		!inner.Empty() ||
 		!algorithm.ReadASN1ObjectIdentifier(&oidAlgorithm) ||
 		!algorithm.ReadASN1ObjectIdentifier(&oidCurve) ||
